@@ -785,6 +785,87 @@ def sg9(P, C):
         raise core.AnalysisBroken("SG-9: expected the three block solvers, found %d" % n)
 
 
+def sg11(P, C):
+    """SG-11: the iteration budget of a block solver grows with the number of unknowns."""
+    C.rule("SG-11", "a block-pivoting solver may have to release the coefficients of a stretch without data one per outer iteration (the penalty "
+           "couples neighbours only), so a budget that does not grow with the number of unknowns stops short of the optimum on larger "
+           "problems: the cap of the outer loop — the value the counter starts from when it counts down, or the bound it is compared with — "
+           "evaluated for nvar = 10, 100, 1000 and 100000 is at least 3*nvar (what all three solvers allow) in each case", floor=3)
+    n = 0
+    for name in ("nnls_normal_block", "nnls_normal_block_updown", "nnls_normal_block3"):
+        fs_ = [g for g in P.fns(name) if g.unit.startswith("fitter/")]
+        if not fs_:
+            continue
+        f = fs_[0]
+        loops = [i for i in f.walk() if f.k(i) in ("ForStmt", "WhileStmt") and not any(f.k(a) in ("ForStmt", "WhileStmt", "DoStmt") for a in f.ancestors(i))]
+        cap = None
+        where = f.where()
+        for L in loops:
+            c = f.nodes[L].get("cond", -1)
+            if c is None or c < 0:
+                continue
+            brk = any(f.k(x) == "BreakStmt" and next((a for a in f.ancestors(x) if f.k(a) in ("ForStmt", "WhileStmt", "DoStmt", "SwitchStmt")), None) == L
+                      for x in f.walk(f.nodes[L]["body"]))
+            cs = f.strip(c)
+            if not brk or f.k(cs) != "BinaryOperator":
+                continue
+            l, r = (f.strip(x) for x in f.nodes[cs]["ch"])
+            op = f.nodes[cs].get("op")
+            ctr = l if f.k(l) != "UnaryOperator" else f.strip(f.nodes[l]["ch"][0])
+            if f.k(ctr) != "DeclRefExpr" and f.k(r) == "UnaryOperator":
+                ctr = f.strip(f.nodes[r]["ch"][0])
+            if f.k(ctr) != "DeclRefExpr" or "iter" not in f.nodes[ctr]["decl"].get("name", ""):
+                continue
+            where = f.loc(L)
+            if op == "<" and f.k(r) == "UnaryOperator" and f.nodes[r].get("op") == "--" and f.nodes[l].get("v", f.nodes[l].get("cv")) == 0:
+                l, r, op = r, l, ">"            # the normal form writes `iter-- > 0` as `0 < iter--`
+                ctr = f.strip(f.nodes[l]["ch"][0])
+            if f.k(l) == "UnaryOperator" and f.nodes[l].get("op") == "--" and op == ">" and f.nodes[r].get("v", f.nodes[r].get("cv")) == 0:
+                cap = ("start", f.nodes[ctr]["decl"].get("id"))         # while (iter-- > 0): the budget is what iter starts from
+            elif op == "<" and f.k(l) == "DeclRefExpr":
+                cap = ("bound", r)                                      # for (iter = 0; iter < CAP; iter++)
+        vals = None
+        det = "the capped outer loop was not identified"
+        if cap is not None:
+            def defs_of(vid):
+                """(value expression, the store or None for a declaration) of every definition of the variable"""
+                ds = [(d["init"], None) for x in f.walk() if f.k(x) == "DeclStmt" for d in f.nodes[x]["decls"] if d.get("id") == vid and d.get("init", -1) >= 0]
+                ds += [(f.nodes[x]["ch"][1], x) for x in f.walk() if f.k(x) == "BinaryOperator" and f.nodes[x].get("op") == "=" and
+                       f.k(f.strip(f.nodes[x]["ch"][0])) == "DeclRefExpr" and f.nodes[f.strip(f.nodes[x]["ch"][0])]["decl"].get("id") == vid]
+                return ds
+            e = cap[1]
+            if cap[0] == "start":
+                defs = defs_of(cap[1])
+            elif f.k(e) == "DeclRefExpr" and f.nodes[e]["decl"].get("kind") == "Var":
+                defs = defs_of(f.nodes[e]["decl"].get("id"))
+            else:
+                defs = [(e, None)]
+            # definitions inside the capped loop are not the budget it starts with
+            defs = [(v, st) for (v, st) in defs if st is None or not any(f.k(a_) in ("ForStmt", "WhileStmt", "DoStmt") for a_ in f.ancestors(st))]
+            if not defs:
+                det = "the budget has no definition in front of the loop"
+            else:
+                vals = []
+                try:
+                    for nv in (10, 100, 1000, 100000):
+                        env = {"nvar": nv, "AtA->nrow": nv}
+                        # the definition whose branch conditions hold for this number of unknowns (`max_iter = c ? a : b` reaches the rules as
+                        # an if/else with one store per arm, N12)
+                        taken = [v for (v, st) in defs if st is None or core.path_taken(f, st, env)]
+                        if len(taken) != 1:
+                            raise core.Unknown("%d definitions reach the loop for nvar = %d" % (len(taken), nv))
+                        vals.append((nv, core.expr_value(f, taken[0], env)))
+                    det = "budget: %s" % ", ".join("nvar=%d -> %s" % t for t in vals)
+                except core.Unknown as u:
+                    vals = None
+                    det = "the budget cannot be evaluated from the number of unknowns (%s)" % u
+        ok = bool(vals) and all(isinstance(v, int) and v >= 3 * nv for nv, v in vals)
+        n += 1
+        C.ob("SG-11", name, "budget-grows-with-the-unknowns", ok, where, det)
+    if n < 3:
+        raise core.AnalysisBroken("SG-11: expected the three block solvers, found %d" % n)
+
+
 def sg10(P, C):
     """SG-10: the flag that says whether the snapshot of the constrained set is in use is set in every iteration."""
     from . import ts
